@@ -54,6 +54,7 @@ type OblResult struct {
 	Bytes     int     `json:"smt_bytes"`
 	NHyps     int     `json:"hypotheses"`
 	script    string
+	retried   *SolveResult
 	obl       *Obligation
 	res       SolveResult
 	presolved bool
@@ -294,6 +295,34 @@ func RunCheck(cfg *CheckConfig) int {
 			knownOpen[k.Obligation] = k
 		}
 	}
+	// obligations that did not get an answer and deserve one retry with a longer limit (an unchanged VC, or
+	// a changed VC that merely timed out): retried in parallel, the verdicts below use the retry's answer
+	{
+		var rwg sync.WaitGroup
+		rsem := make(chan struct{}, 8)
+		for _, r := range results {
+			if r.presolved || r.Status == "unsat" || r.Status == "sat" {
+				continue
+			}
+			if _, ok := knownOpen[r.Name]; ok {
+				continue
+			}
+			bh, inBase := baseP[r.Name]
+			unchanged := inBase && bh == r.Hash
+			if !(unchanged || (r.Status == "timeout" && cfg.Tier != "thorough")) {
+				continue
+			}
+			rwg.Add(1)
+			go func(r *OblResult) {
+				defer rwg.Done()
+				rsem <- struct{}{}
+				defer func() { <-rsem }()
+				rr := Solve(r.script, work, r.Name, timeout*3, false)
+				r.retried = &rr
+			}(r)
+		}
+		rwg.Wait()
+	}
 	violations := 0
 	discharged := 0
 	solverCount := map[string]int{}
@@ -329,7 +358,10 @@ func RunCheck(cfg *CheckConfig) int {
 			bh, inBase := baseP[r.Name]
 			if inBase && bh == r.Hash {
 				// unchanged VC, solver did not answer: retry with a longer timeout
-				rr := Solve(r.script, work, r.Name, timeout*3, false)
+				rr := SolveResult{Status: r.Status}
+				if r.retried != nil {
+					rr = *r.retried
+				}
 				if rr.Status == "unsat" {
 					r.Status, r.Solver, r.Seconds = "unsat", rr.Solver, rr.Seconds
 					discharged++
@@ -342,7 +374,10 @@ func RunCheck(cfg *CheckConfig) int {
 			if (inBase || cfg.NoBaseline || len(baseP) > 0) && r.Status == "timeout" && cfg.Tier != "thorough" {
 				// a changed VC that merely ran out of time: one retry with a longer limit before calling it
 				// a failed proof (a harmless edit of a function whose proof is slow must not become an alarm)
-				rr := Solve(r.script, work, r.Name, timeout*3, false)
+				rr := SolveResult{Status: r.Status}
+				if r.retried != nil {
+					rr = *r.retried
+				}
 				if rr.Status == "unsat" {
 					r.Status, r.Solver, r.Seconds = "unsat", rr.Solver, rr.Seconds
 					discharged++
